@@ -546,13 +546,17 @@ for _v in T_MIXED:
 # ------------------------------------------------------------ names that merely LOOK like sequence variables fall through to outer sources
 T_LOOK = cooked('<dtml-in seq prefix=row><dtml-var row_data>,<dtml-var row_items>,<dtml-var row_value>,<dtml-var row_zzz>,<dtml-var row_item>;</dtml-in>')
 T_LOOK2 = cooked('<dtml-in seq><dtml-var sequence-data>,<dtml-var sequence-zzz>,<dtml-var sequence-item>;</dtml-in>')
+T_LOOK3 = cooked('<dtml-in seq><dtml-var mapping>,<dtml-var items>,<dtml-var data>,<dtml-var query_string missing=Q>;</dtml-in>|'
+                 '<dtml-in mseq mapping size=3><dtml-var mapping>,<dtml-var items>;</dtml-in>')
 
 
 def ob_lookalike_names(a: int, b: int) -> bool:
     """the in block binds the documented sequence variables only: other names carrying its prefix resolve from outside"""
     out = T_LOOK(seq=[a, b], row_data='D', row_items='I', row_value='V', row_zzz='Z')
     out2 = T_LOOK2(seq=[a], **{'sequence-data': 'D', 'sequence-zzz': 'Z'})
-    return out == 'D,I,V,Z,%d;D,I,V,Z,%d;' % (a, b) and out2 == 'D,Z,%d;' % a
+    # names the tag uses internally (its mapping flag, attributes of its variables object) are not bindings of the block either
+    out3 = T_LOOK3(None, {'mapping': 'M', 'items': 'IT', 'data': 'DA'}, seq=[a], mseq=[{'k': b}])
+    return out == 'D,I,V,Z,%d;D,I,V,Z,%d;' % (a, b) and out2 == 'D,Z,%d;' % a and out3 == 'M,IT,DA,Q;|M,IT;'
 
 
 OBLIGATIONS.append(Ob('lookalike_names', ob_lookalike_names, ['0 <= a <= 1', '0 <= b <= 1'], timeout=tier(100, 300), data='two int elements 0..1',
